@@ -37,7 +37,7 @@ AllPairs(M) == {[k |-> k, v |-> M.m[k]] : k \in DOMAIN M.m}
 
 AllAspects == {"view", "fn", "vis", "count"}
 AspectsOf(prop) ==
-  CASE prop = "C05" -> {"fn"}
+  CASE prop = "C05" -> {"fn", "view"}
     [] prop = "C07" -> {"vis"}
     [] prop = "C08" -> {"count"}
     [] OTHER -> AllAspects
